@@ -293,6 +293,15 @@ func run(rc *kernel.RunCtx) {
 	}
 	nTasks := tp.Range(1, 4)
 	plans := make([][]step, nTasks)
+	// Derivations made by the tasks during the run draw their attribute lists
+	// from a small pool, so that the same list is given to WithAttrs on the
+	// same parent more than once; some runs derive a lot.
+	derivPool := [][]slog.Attr{genAttrs(), genAttrs(), genAttrs()}
+	deriveNum := 1
+	if tp.Bool(1, 4) {
+		deriveNum = 3
+		rc.Stats.Probe("derive-heavy")
+	}
 	// Scheduler-side record of what was handled.
 	var done []handled
 	seqs := make([]int, nTasks)
@@ -306,9 +315,9 @@ func run(rc *kernel.RunCtx) {
 		var ownAttrs []slog.Attr
 		for n := tp.Range(1, 4); n > 0; n-- {
 			st := step{deriveOf: -1}
-			if tp.Bool(1, 4) {
-				st.deriveOf = tp.Choose(nStatic)
-				st.attrs = genAttrs()
+			if tp.Bool(deriveNum, 4) {
+				st.deriveOf = tp.Choose(min(nStatic, 2))
+				st.attrs = derivPool[tp.Choose(len(derivPool))]
 				hasOwn = true
 				ownAttrs = append(append([]slog.Attr(nil), nodes[st.deriveOf].attrs...), st.attrs...)
 			}
